@@ -283,6 +283,22 @@ Section Writer.
     | e => e
     end.
 
+  (* write(data, amount): for (; amount > kSizeMax; data += kSizeMax, amount -= kSizeMax) write(data, kSizeMax);
+     then the loop above on what is left.  [M] = Compressor::kSizeMax, [chunks] bounds the recursion *)
+  Fixpoint ws_write_chunks (M : N) (chunks fuel : nat) (k : kind) (s : wstate) (data : list Z) : wres :=
+    if M <? len data then
+      match chunks with
+      | O => WErr true
+      | S c =>
+        match ws_write fuel k s (takeN M data) with
+        | WOk s' => ws_write_chunks M c fuel k s' (dropN M data)
+        | e => e
+        end
+      end
+    else ws_write fuel k s data.
+  Definition ws_write_full (fuel : nat) (k : kind) (s : wstate) (data : list Z) : wres :=
+    ws_write_chunks kSizeMax (length data) fuel k s data.
+
   (* do { ensure } while (!compressor_.Finish()); *)
   Fixpoint flush_loop (fuel : nat) (k : kind) (s : wstate) : wres :=
     match fuel with
@@ -310,7 +326,7 @@ Section Writer.
     match ops with
     | [] => WOk s
     | op :: r =>
-      match (match op with OpWrite d => ws_write fuel k s d | OpFlush => ws_flush fuel k s end) with
+      match (match op with OpWrite d => ws_write_full fuel k s d | OpFlush => ws_flush fuel k s end) with
       | WOk s' => run_ops fuel k s' r
       | e => e
       end
